@@ -378,6 +378,15 @@ def build(active_known=frozenset()):
     from contracts import c10_analyzer
 
     c10_analyzer.add_analyzer(pack, private)
+    # resolve_alias (what `resolve`, `ns-resolve` and syntax-quote use to name the Var a symbol denotes) is proved in the C09
+    # pack; the same contracts are discharged here as well, since "bare, aliased and qualified spellings denote the same
+    # Var" is this property's statement
+    from contracts import c09_syntax_quote
+
+    n0 = len(pack.contracts)
+    c09_syntax_quote.add_resolution(pack)
+    pack.contracts[n0:] = [c_ for c_ in pack.contracts[n0:] if c_.key.endswith(":resolve_alias")]
+
     # Var.set_dynamic: Var.intern calls it on every re-definition; that it leaves the thread-local bindings of a Var that
     # stays dynamic alone is what makes "reading sees the thread binding" survive a re-`def` (contract shared with C11)
     from contracts import c11_bindings
